@@ -28,13 +28,17 @@ Definition max_burst (t : list event) : Z :=
 
 Definition inb_px (p : panel) (o : orient) (q : pixel) : bool := let '(x, y, _) := q in in_box p o x y.
 
+Definition count_op (op : Z) (t : list event) : Z :=
+  Z.of_nat (List.length (filter (fun e => match e with ECmd o _ => o =? op | _ => false end) t)).
+
 (* walk the ops: the first op is the calibration run; orientation tracked through set_orientation *)
 Fixpoint walk20 (batch : bool) (p : panel) (o : orient) (cap : Z) (ops : list (Z * pop)) (outs : list opres) : bool :=
   match ops, outs with
   | [], [] => true
   | (_, op) :: r, (rs, ev, _) :: orest =>
-      let n := count_ramwr ev in
-      res_beq rs ROk &&
+      (* a window set-up is CASET + RASET + RAMWR: all three are counted and must agree *)
+      let n := count_op 0x2A ev in
+      res_beq rs ROk && (count_op 0x2B ev =? n) && (count_ramwr ev =? n) &&
       (match op with
        | PDrawIter ps =>
            let fs := filter (inb_px p o) ps in
